@@ -129,26 +129,7 @@ def check(ctx):
                 heap = st.heap[o.obj.id]
                 leftovers = sorted(k for k, v in heap.items() if v.kind not in ("undef",) and k.endswith("_") and k not in ("support_", "new_dist_") and any(x.op == "sym" and str(x.args[0]).startswith("stale_") for x in tq.walk_all(v.term)))
                 ctx.ob("R-BUFFERS", f"{pkg}.{cls2.name}: cold initialisation leaves no search state of the previous fit (y={with_y})", not leftovers, f"attributes still holding values of the previous fit: {leftovers}", ctx.site(P.method(cls2, "_init_greedy_search")), f"{pkg}.{cls2.name} y={with_y}")
-            # warm start re-extension
-            I, st = ctx.interp(), State()
-            attrs, Q = _pre_state("", axis, S, with_y)
-            attrs["n_selected_"] = integer("Q")
-            attrs["selected_idx_"] = arr("sel", "Q", inp=False, dtype="int")
-            attrs["X_selected_"] = arr("Xsel", "N", "Q", inp=False) if axis == 1 else arr("Xsel", "Q", "M", inp=False)
-            if with_y:
-                attrs["y_selected_"] = arr("ysel", "Q", "P", inp=False)
-            o = ctx.bare_object(I, st, base, attrs)
-            ctx.call_method(I, st, o, "_continue_greedy_search", X, y if with_y else vconst(None), n)
-            I2, s2 = ctx.interp(), State()
-            ref = ctx.call_func(I2, s2, "ref.selection_ref.continue_buffers", attrs["X_selected_"], attrs.get("y_selected_", vconst(None)), attrs["selected_idx_"], attrs["n_selected_"], n, axis, with_y)
-            site = ctx.site(P.method(base, "_continue_greedy_search"))
-            ctx.compare("R-BUFFERS", f"{pkg}: warm start pads X_selected_ on the selection axis keeping the prefix (y={with_y})", N, ctx.attr(st, o, "X_selected_"), ref.items[0], site, cfg)
-            ctx.shape_is("R-BUFFERS", f"{pkg}: padded X_selected_ extent = new n_to_select (y={with_y})", ctx.attr(st, o, "X_selected_"), ("N", "S") if axis == 1 else ("S", "M"), site, cfg)
-            if with_y:
-                ctx.compare("R-BUFFERS", f"{pkg}: warm start pads y_selected_", N, ctx.attr(st, o, "y_selected_"), ref.items[1], site, cfg)
-                ctx.shape_is("R-BUFFERS", f"{pkg}: padded y_selected_ extent", ctx.attr(st, o, "y_selected_"), ("S", "P"), site, cfg)
-            ctx.compare("R-BUFFERS", f"{pkg}: warm start keeps the selected prefix of selected_idx_ (y={with_y})", N, ctx.attr(st, o, "selected_idx_"), ref.items[2], site, cfg)
-            ctx.no_shape_conflicts("Shape", f"{pkg}: _continue_greedy_search (y={with_y})", I, 0, site, cfg)
+            warm_buffers(ctx, N, pkg, axis, S, with_y)
     # ---------------- R-EXCL / threshold -----------------------------------------------
     for ttype in ("absolute", "relative"):
         for thr in (None, "set"):
@@ -339,6 +320,35 @@ def _trunc_axis(t):
     return None
 
 
+def warm_buffers(ctx, N, pkg, axis, S, with_y):
+    """warm start: every result buffer is re-extended to the new request keeping the selected prefix
+    (shared with C08: the stored data of a warm-started fit is the cold one's)"""
+    P = ctx.P
+    base = P.cls("skmatter._selection.GreedySelector")
+    X, y, n = arr("X", "N", "M"), arr("y", "N", "P"), integer("S")
+    cfg = f"{pkg} y={with_y}"
+    # warm start re-extension
+    I, st = ctx.interp(), State()
+    attrs, Q = _pre_state("", axis, S, with_y)
+    attrs["n_selected_"] = integer("Q")
+    attrs["selected_idx_"] = arr("sel", "Q", inp=False, dtype="int")
+    attrs["X_selected_"] = arr("Xsel", "N", "Q", inp=False) if axis == 1 else arr("Xsel", "Q", "M", inp=False)
+    if with_y:
+        attrs["y_selected_"] = arr("ysel", "Q", "P", inp=False)
+    o = ctx.bare_object(I, st, base, attrs)
+    ctx.call_method(I, st, o, "_continue_greedy_search", X, y if with_y else vconst(None), n)
+    I2, s2 = ctx.interp(), State()
+    ref = ctx.call_func(I2, s2, "ref.selection_ref.continue_buffers", attrs["X_selected_"], attrs.get("y_selected_", vconst(None)), attrs["selected_idx_"], attrs["n_selected_"], n, axis, with_y)
+    site = ctx.site(P.method(base, "_continue_greedy_search"))
+    ctx.compare("R-BUFFERS", f"{pkg}: warm start pads X_selected_ on the selection axis keeping the prefix (y={with_y})", N, ctx.attr(st, o, "X_selected_"), ref.items[0], site, cfg)
+    ctx.shape_is("R-BUFFERS", f"{pkg}: padded X_selected_ extent = new n_to_select (y={with_y})", ctx.attr(st, o, "X_selected_"), ("N", "S") if axis == 1 else ("S", "M"), site, cfg)
+    if with_y:
+        ctx.compare("R-BUFFERS", f"{pkg}: warm start pads y_selected_", N, ctx.attr(st, o, "y_selected_"), ref.items[1], site, cfg)
+        ctx.shape_is("R-BUFFERS", f"{pkg}: padded y_selected_ extent", ctx.attr(st, o, "y_selected_"), ("S", "P"), site, cfg)
+    ctx.compare("R-BUFFERS", f"{pkg}: warm start keeps the selected prefix of selected_idx_ (y={with_y})", N, ctx.attr(st, o, "selected_idx_"), ref.items[2], site, cfg)
+    ctx.no_shape_conflicts("Shape", f"{pkg}: _continue_greedy_search (y={with_y})", I, 0, site, cfg)
+
+
 def _support(ctx, N):
     P = ctx.P
     base = P.cls("skmatter._selection.GreedySelector")
@@ -353,6 +363,12 @@ def _support(ctx, N):
         site = ctx.site(P.method(base, "_postprocess"))
         ctx.compare("R-SUPPORT", f"{pkg}: support_ marks exactly selected_idx_ over the selection axis", N, ctx.attr(st, o, "support_"), ref, site, pkg)
         ctx.shape_is("R-SUPPORT", f"{pkg}: support_ length = size of the selection axis", ctx.attr(st, o, "support_"), (S,), site, pkg)
+        # the same on a selector that still holds the mask of an earlier fit (same or other length)
+        for stale_len in (S, "S0"):
+            Is, ss = ctx.interp(), State()
+            os_ = ctx.bare_object(Is, ss, base, {"_axis": axis, "selected_idx_": sel, "n_selected_": integer("Q"), "support_": arr("stale_support", stale_len, inp=False, dtype="bool")})
+            ctx.call_method(Is, ss, os_, "_postprocess", X, arr("y", "N", "P"))
+            ctx.compare("R-SUPPORT", f"{pkg}: support_ is rebuilt from selected_idx_ alone on a refitted selector (earlier mask of length {stale_len})", N, ctx.attr(ss, os_, "support_"), ref, site, f"{pkg} stale mask {stale_len}")
         sup = ctx.attr(st, o, "support_")
         r = ctx.call_method(I, st, o, "get_support")
         ctx.ob("R-SUPPORT", f"{pkg}: get_support() returns support_", r.term == sup.term, f"{r.term!r}", ctx.site(P.method(base, "get_support")), pkg)
